@@ -26,6 +26,8 @@ func TestVerif(t *testing.T) {
 		verifC05(t, r, out)
 	case "C12":
 		verifC12(t, r, out)
+	case "C18":
+		verifC18(t, r, out)
 	default:
 		t.Fatalf("unknown VERIF_PROP %q for package corerad", prop)
 	}
